@@ -38,6 +38,7 @@ def parseTy (s : String) : Option Ty :=
   | "string" => some .string
   | "user" => some (.user "UserT" (some 8))
   | "user4" => some (.user "UserT" (some 4))
+  | "userv" => some (.user "UserT" none)
   | "useru32" => some (.user "u32" (some 4))
   | "optu32" => some (.option .u32)
   | "optuser" => some (.option (.user "u32" (some 4)))
